@@ -23,6 +23,7 @@ def step (line : String) : String :=
   | "c01p" :: a => Drv.C01.opPipeline a
   | "c04f" :: a => Drv.C01.opFollow a
   | "c04a" :: a => Drv.C01.opAssemble a
+  | "c15" :: a => Drv.C15.op a
   | "c05hy" :: a => Drv.C05.opHy a
   | "c05pd" :: a => Drv.C05.opPD a
   | "c06tz" :: a => Drv.C05.opTZ a
